@@ -66,6 +66,57 @@ pub enum UnitKey {
 #[derive(Serialize, Deserialize, PartialEq, Eq, PartialOrd, Ord, Debug, Clone)]
 pub struct NewKey(pub String);
 
+/// Newtype structs around every other kind of map key (serde hands a newtype key to the key
+/// (de)serializer through `(de)serialize_newtype_struct`, a path of its own), plain and
+/// `#[serde(transparent)]`.
+#[derive(Serialize, Deserialize, PartialEq, Eq, PartialOrd, Ord, Debug, Clone)]
+pub struct NewKeyOf<T>(pub T);
+
+#[derive(Serialize, Deserialize, PartialEq, Eq, PartialOrd, Ord, Debug, Clone)]
+#[serde(transparent)]
+pub struct TransparentKeyOf<T>(pub T);
+
+fn newtype_keys(t: &mut Tally) {
+    macro_rules! both {
+        ($v:expr, $name:expr) => {
+            key_context(&NewKeyOf($v), concat!("BTreeMap<newtype(", $name, "),_>"), t);
+            key_context(&TransparentKeyOf($v), concat!("BTreeMap<transparent newtype(", $name, "),_>"), t);
+            key_context(&NewKeyOf(NewKeyOf($v)), concat!("BTreeMap<newtype(newtype(", $name, ")),_>"), t);
+        };
+    }
+    for x in [0u8, 255] {
+        both!(x, "u8");
+    }
+    for x in [i8::MIN, -1, 127] {
+        both!(x, "i8");
+    }
+    for x in [0u16, 32768, u16::MAX] {
+        both!(x, "u16");
+    }
+    for x in [i16::MIN, -1] {
+        both!(x, "i16");
+    }
+    for x in [0u32, u32::MAX] {
+        both!(x, "u32");
+    }
+    for x in [i32::MIN, 7] {
+        both!(x, "i32");
+    }
+    for x in [0u64, u64::MAX] {
+        both!(x, "u64");
+    }
+    for x in [i64::MIN, i64::MAX] {
+        both!(x, "i64");
+    }
+    for x in ['a', '7', '\u{1f600}'] {
+        both!(x, "char");
+    }
+    for x in [UnitKey::Alpha, UnitKey::Beta] {
+        both!(x, "unit variant");
+    }
+    both!("7".to_string(), "String");
+}
+
 #[derive(Serialize, Deserialize, PartialEq, Debug, Clone)]
 pub struct UnitStruct;
 
@@ -517,6 +568,7 @@ fn buffered_leaves(t: &mut Tally) {
 }
 
 fn representations(t: &mut Tally) {
+    newtype_keys(t);
     buffered_leaves(t);
     empty_payloads(t);
     for x in [-128i8, -1, 0, 127] {
